@@ -165,14 +165,25 @@ func (s *svc) Sleep(ctx context.Context, name string, ns int64, honour bool) (st
 			w.mu.Unlock()
 		}
 	}
+	// Without request timeouts (codec door) the wake-up is a gate, so that the order in which
+	// several sleepers ending at the same instant answer is the tape's. Where a timeout can
+	// fire (http) the wake-up is deliberately NOT gated: a sleep ending exactly at the
+	// deadline is the genuine same-instant race between the timeout and the return.
+	wake := func() {
+		if w.p.Door == "codec" {
+			w.sched.Gate("wake:" + name)
+		}
+	}
 	if !honour {
 		time.Sleep(time.Duration(ns))
+		wake()
 		return name, nil
 	}
 	t := time.NewTimer(time.Duration(ns))
 	defer t.Stop()
 	select {
 	case <-t.C:
+		wake()
 		return name, nil
 	case <-ctx.Done():
 		w.wokenByCancel(name)
